@@ -416,25 +416,7 @@ func genMsg(rt *rapid.T, id int, open map[string]string, feat map[string]bool) M
 
 func TestLSPHistory(t *testing.T) {
 	hx.Rule("lsp_history", "message histories (<= 30 messages, inside the rate limiter's window) against a real lsp.Server on in-memory pipes: initialize, didOpen/didChange (full, incremental with in-range, past-the-end, inverted and negative ranges, batched changes)/didClose/didSave over ASCII and non-ASCII (BMP and astral) text, every request kind at arbitrary positions, unknown methods, requests without params, wrongly typed envelopes, malformed JSON, bad headers; after every message (barrier = a sentinel request): server alive, output frames well-formed with exact Content-Length, exactly one response per request id and none otherwise, server copy of each document == UTF-16 reference model, last diagnostics match the recovery parse of the model text in version, number and line; non-trivial = history has an incremental edit on a non-ASCII document or a past-the-end/invalid edit or malformed input; distinct = message kinds")
-	histCheck.Rapid(t, hx.N(2400, 40000), func(rt *rapid.T) History {
-		n := rapid.IntRange(1, 30).Draw(rt, "n")
-		h := History{Msgs: []Msg{{Kind: "initialize", ID: 0}, {Kind: "initialized"}}}
-		feat := map[string]bool{}
-		var kinds []string
-		for i := 0; i < n; i++ {
-			m := genMsg(rt, i+1, nil, feat)
-			h.Msgs = append(h.Msgs, m)
-			kinds = append(kinds, m.Kind)
-		}
-		var cl []string
-		for k := range feat {
-			cl = append(cl, k)
-		}
-		nt := feat["edit_past_end"] || feat["edit_negative"] || feat["edit_inverted"] || feat["malformed_json"] || feat["bad_header"] || feat["batched_changes"]
-		hx.Case("lsp_history", nt, strings.Join(kinds, ","), cl...)
-		hx.Sample("lsp_history", kinds)
-		return h
-	})
+	histCheck.Rapid(t, hx.N(2400, 40000), genLSPHistory)
 }
 
 // ---------------------------------------------------------------- exhaustive edit ranges on small documents
@@ -507,3 +489,27 @@ func splitsSurrogate(doc string, line, char int) bool {
 	}
 	return false
 }
+
+// genLSPHistory is the case generator of histCheck (shared by the rapid run and the native fuzz target).
+func genLSPHistory(rt *rapid.T) History {
+	n := rapid.IntRange(1, 30).Draw(rt, "n")
+	h := History{Msgs: []Msg{{Kind: "initialize", ID: 0}, {Kind: "initialized"}}}
+	feat := map[string]bool{}
+	var kinds []string
+	for i := 0; i < n; i++ {
+		m := genMsg(rt, i+1, nil, feat)
+		h.Msgs = append(h.Msgs, m)
+		kinds = append(kinds, m.Kind)
+	}
+	var cl []string
+	for k := range feat {
+		cl = append(cl, k)
+	}
+	nt := feat["edit_past_end"] || feat["edit_negative"] || feat["edit_inverted"] || feat["malformed_json"] || feat["bad_header"] || feat["batched_changes"]
+	hx.Case("lsp_history", nt, strings.Join(kinds, ","), cl...)
+	hx.Sample("lsp_history", kinds)
+	return h
+}
+
+// FuzzLSPHistory: coverage-guided search over the same generator (thorough tier).
+func FuzzLSPHistory(f *testing.F) { histCheck.Fuzz(f, genLSPHistory) }
